@@ -30,7 +30,7 @@ func init() {
 	register(&c20{base{
 		id:          "C20",
 		level:       lvlExploration,
-		rule:        "the built par binary is run as a real process for {PAR1, PAR2} x archive state {intact, repairable, all-slices-present-but-wrong with and without recovery files (PAR2), unrepairable, no parity + damage, no parity + intact, damaged index, missing index} x invocation directory {set directory with a relative path, parent with a relative path, unrelated directory with an absolute path} x command spellings (create/c/C/Create, verify/v/VERIFY, repair/r/Repair) and flags (-g, -s, -c, -a, -doublecheck); plus usage errors (no command, unknown command, missing arguments, bad flags) and create failures (missing input, invalid slice size, unwritable target, a directory squatting on a volume name). The expected status is computed by the harness from the state it constructed: create ok 0; verify clean 0 / needed+possible 1 / needed+impossible 2; repair done 0 / impossible 2; usage 3; any other failure a status outside {0,1,2,3}. A 0 status is cross-checked against the disk (repair: all originals; create: complete set that verifies; verify: files identical). A key is (format, state, cwd, command spelling, flags). A third of the archives are renamed to base names containing '%'. create with an input listed twice: refused, or exit 0 and the set verifies. PAR1 sets filled to capacity (255+1, 250+6, 157+99, 3+99, 1+1) created by the binary, with as many files lost as volumes (1 / 0) and one more (2 / 2). A third of the PAR2 worlds contain identical slices (expected statuses of data-losing states are then computed from the bytes); a third of the PAR1 worlds carry another client's identifier in the version field.. create -c N: the recovery files must hold N distinct blocks; option values at and beyond the edges (-c 0/-1/70000, -s 0/-8/3, -g 0/-3/100000).. States data-is-directory (a read failure, not damage) and create with one unreadable input among good ones.. State copy-deleted through the binary. The -cpuprofile option: an unwritable profile is a failure status outside {0,1,2,3} for create, verify and repair; a writable one changes nothing and exists afterwards.",
+		rule:        "the built par binary is run as a real process for {PAR1, PAR2} x archive state {intact, repairable, all-slices-present-but-wrong with and without recovery files (PAR2), unrepairable, no parity + damage, no parity + intact, damaged index, missing index} x invocation directory {set directory with a relative path, parent with a relative path, unrelated directory with an absolute path} x command spellings (create/c/C/Create, verify/v/VERIFY, repair/r/Repair) and flags (-g, -s, -c, -a, -doublecheck); plus usage errors (no command, unknown command, missing arguments, bad flags) and create failures (missing input, invalid slice size, unwritable target, a directory squatting on a volume name). The expected status is computed by the harness from the state it constructed: create ok 0; verify clean 0 / needed+possible 1 / needed+impossible 2; repair done 0 / impossible 2; usage 3; any other failure a status outside {0,1,2,3}. A 0 status is cross-checked against the disk (repair: all originals; create: complete set that verifies; verify: files identical). A key is (format, state, cwd, command spelling, flags). A third of the archives are renamed to base names containing '%'. create with an input listed twice: refused, or exit 0 and the set verifies. PAR1 sets filled to capacity (255+1, 250+6, 157+99, 3+99, 1+1) created by the binary, with as many files lost as volumes (1 / 0) and one more (2 / 2). A third of the PAR2 worlds contain identical slices (expected statuses of data-losing states are then computed from the bytes); a third of the PAR1 worlds carry another client's identifier in the version field.. create -c N: the recovery files must hold N distinct blocks; option values at and beyond the edges (-c 0/-1/70000, -s 0/-8/3, -g 0/-3/100000).. States data-is-directory (a read failure, not damage) and create with one unreadable input among good ones.. State copy-deleted through the binary. The -cpuprofile option: an unwritable profile is a failure status outside {0,1,2,3} for create, verify and repair; a writable one changes nothing and exists afterwards. Capacity states first request one volume more than fits (refused, or all written); create with every input empty (refused with a status outside 0..3, or a set that verifies).",
 		assumptions: commonAssumptions,
 		opts:        core.WorkerOpts{CrashIsViolation: false, WallSeconds: 2400},
 	}})
